@@ -324,3 +324,11 @@ def replay(case, seed):
     else:
         run_ctor(r, seed)
     return r['violations']
+
+# a subset of the units is executed again in other environments (child interpreters): see core.run_variants
+ENV_VARIANTS = [{'name': 'python-O', 'flags': ['-O']}]
+
+def variant_units(tier, seed, name):
+    pred = lambda uid, p: p.get('kind') in ('contracts', 'ctor')
+    return [u for u in units('quick', seed) if pred(u[0], u[1])]
+
